@@ -146,7 +146,7 @@ func frontProbe(cc *run.Case, ind *reg.Indicator, cfg reg.Cfg, class string) {
 }
 
 func c02(ctx *run.Ctx) {
-	nrand := ctx.Pick(5, 25)
+	nrand := ctx.Pick(10, 25)
 	for _, ind := range reg.Sorted() {
 		ind := ind
 		ctx.Count("cmp:"+ind.Name, 0)
